@@ -508,7 +508,8 @@ class Model:
             # Get indices of non-merge sequences.
             diff = np.zeros(self.shape[2])
             for k, v in props.items():
-                diff += abs(np.diff(np.r_[-1, v]))
+                diff[1:] += abs(np.diff(v))
+            diff[0] = 1.0  # The first layer is always kept.
             ind = diff.nonzero()[0]
 
             # Merge.
